@@ -637,6 +637,58 @@ func runC10(c *ctx) {
 			}
 		}
 	}
+	// an expansion that would generate a name that is already written somewhere in the tree - in the same item, in a
+	// sibling, across a list boundary in either direction - never yields a tree with that name twice
+	{
+		u := func(names ...string) *ref.Item {
+			it := &ref.Item{Kind: ref.U1}
+			for _, n := range names {
+				it.Slots = append(it.Slots, ref.Slot{Var: n})
+			}
+			return it
+		}
+		l := func(ch ...*ref.Item) *ref.Item { return &ref.Item{Kind: ref.L, Children: ch} }
+		e := func(name string) *ref.Item { return &ref.Item{Var: name} }
+		clashes := []*ref.Item{
+			l(l(u("p"), e("...")), u("p[1]")),                       // generated in a sub-list, written in the parent
+			l(u("p[1]"), l(u("p"), e("..."))),                       // written before the sub-list
+			l(l(u("p[0]")), l(u("p"), e("..."))),                    // written in a sibling sub-list
+			l(l(l(u("q"), e("...[0]")), u("q[1][0]"), e("...[1]"))), // nested: q[j][i] against a written q[1][0]
+			l(u("k"), u("k[2]"), e("...")),                          // two items of the repeated group itself
+			l(l(u("r"), e("...[0]")), l(u("r"), u("r[0]"), e("...[1]"))),
+			l(e("lv"), e("..."), u("lv[1]")), // a list variable repeated, its generated name written after the ellipsis
+			l(&ref.Item{Kind: ref.A, AVar: "s", AMin: 0, AMax: -1}, e("..."), l(u("s[2]"))),
+		}
+		for _, tpl := range clashes {
+			for n := 1; n <= 3; n++ {
+				counts := map[string]interface{}{}
+				for _, v := range tpl.Vars() {
+					if ref.IsEllipsisName(v) {
+						counts[v] = n
+					}
+				}
+				var node, got ast.ItemNode
+				if o := real.Try(func() { node = real.Build(tpl) }); o.Panicked {
+					continue
+				}
+				o := real.Try(func() { got = node.FillVariables(counts) })
+				c.NoteBulk(1, 1)
+				c.Class("colliding-expansion")
+				if o.Panicked {
+					c.Class("colliding-expansion/refused")
+					continue
+				}
+				seen := map[string]bool{}
+				for _, v := range got.Variables() {
+					if seen[v] {
+						c.Violation("C10/duplicate-name-after-expansion", fmt.Sprintf("template %s expanded with %d: Variables() = %q holds %q twice", clipS(ref.Print(tpl)), n, got.Variables(), v), c10Case{Tpl: tpl, Counts: map[string]int{"...": n}})
+						break
+					}
+					seen[v] = true
+				}
+			}
+		}
+	}
 	// a fill that is refused half-way (a generated name collides with an existing one) must leave no trace: the next
 	// expansion anywhere in the process comes out as usual
 	for rep := 0; rep < 3; rep++ {
@@ -647,7 +699,7 @@ func runC10(c *ctx) {
 		c.Class("expansion-after-a-refused-fill")
 		c10Eval(c, c10Case{Tpl: probe, Counts: map[string]int{"...": 1 + rep}})
 	}
-	c.Required = []string{"array-like-names-in-a-repeated-group", "expansion-after-a-refused-fill", "many-remaining-ellipses", "one-step", "two-step", "individual-fill", "counts-and-generated-names-in-one-call", "random-template", "nothing-to-expand"}
+	c.Required = []string{"colliding-expansion/refused", "array-like-names-in-a-repeated-group", "expansion-after-a-refused-fill", "many-remaining-ellipses", "one-step", "two-step", "individual-fill", "counts-and-generated-names-in-one-call", "random-template", "nothing-to-expand"}
 }
 
 func replayC10(c *ctx, raw json.RawMessage) {
